@@ -186,6 +186,19 @@ def LMon.onFired (m : LMon) (log : List (Int × Nat × Int)) : Option String :=
       | some _ => some "delay:does-run"
       | none => none
 
+/-- the monitor's transitions: time passes, a `Delay` call (ids are handed out in order), a `Stop`
+(only the instant of the first stop of a timer is remembered), an observation -/
+def LMon.onSleep (m : LMon) (dt : Nat) : LMon := { m with now := m.now + dt }
+
+def LMon.onDelay (m : LMon) (d : Int) : LMon :=
+  { m with timers := m.timers ++ [{ id := m.timers.length, d := d, tc := m.now }] }
+
+def LMon.onStop (m : LMon) (id : Nat) : LMon :=
+  { m with timers := m.timers.map fun t =>
+      if t.id == id && t.stopped.isNone then { t with stopped := some m.now } else t }
+
+def LMon.observe (m : LMon) (log : List (Int × Nat × Int)) : LMon := { m with seen := log }
+
 /-! ## Throttle: vocabulary -/
 
 inductive TEv where
